@@ -3,8 +3,10 @@
 import json, os, shutil, subprocess, sys
 pid, i, needs = sys.argv[1], sys.argv[2], sys.argv[3]
 caught = sys.argv[4:]
-src = f"/tmp/seed-out/{pid}"
-dst = f"/verif/seeded/{pid}-{i}"
+# round 2 deliverables live in /tmp/seed2-out and are filed as <id>-3, <id>-4
+rnd2 = os.environ.get("SEED_ROUND") == "2"
+src = f"/tmp/seed2-out/{pid}" if rnd2 else f"/tmp/seed-out/{pid}"
+dst = f"/verif/seeded/{pid}-{int(i) + 2 if rnd2 else i}"
 os.makedirs(dst, exist_ok=True)
 shutil.copy(f"{src}/change{i}.diff", f"{dst}/patch.diff")
 shutil.copy(f"{src}/demo{i}.py", f"{dst}/demo.py")
@@ -13,7 +15,8 @@ if os.path.exists(f"{src}/notes{i}.md"):
 files = sorted({l.split()[-1][2:] for l in open(f"{dst}/patch.diff") if l.startswith("+++ b/")})
 meta = {
     "property": pid,
-    "origin": "independent sub-agent given only the property text and a scratch worktree of /repo",
+    "origin": "independent sub-agent given only the property text and a scratch worktree of /repo"
+              + (" (second round: also shown the two first-round changes, to avoid repeating them)" if rnd2 else ""),
     "files_changed": files,
     "needs_to_manifest": needs,
     "confirmed": {
